@@ -122,6 +122,22 @@ PROPS["C17"] = dict(
     trusted=COMMON_TRUST,
 )
 
+PROPS["C04"] = dict(
+    units=[("verus", "symtab"), ("verus", "vmcore")],
+    explanation="SymbolTable::define/define_free/leave_block/resolve/new_enclosed are verified against an abstract store view: define appends the most "
+                "recent symbol of its name (Global iff there is no enclosing table), resolve returns the LAST symbol visible at the block depth "
+                "(captured symbols are visible in the whole function), falls through to the enclosing function otherwise and captures non-shared "
+                "symbols with index = number of captures so far, returns None exactly when no table of the chain has a visible symbol, and leaves "
+                "the table unchanged when the name is local or unresolvable; leave_block keeps exactly the symbols not deeper than the block being "
+                "left. Lemmas: a new binding shadows (lemma_define_shadows), a binding of an ended block disappears and the previous one is back "
+                "(lemma_inner_binding_ends, lemma_filter_all_kept). VM::push_closure copies exactly the num_free top stack slots, in order, into the new closure.",
+    not_covered=["that compile_identifier / Let / compile_function_literal / compile_block_statement call the table in that order (compiler emission)",
+                 "GetFree/SetFree/Closure opcode arms (vmarms unit, when built)", "globals by reference (GetGlobal/SetGlobal arms)"],
+    assumptions=["std HashMap<String, Vec<_>>: get / insert / entry().or_default().push() / values_mut()+retain have their documented meaning over the abstract view (5 shims)",
+                 "fewer than 2^64 definitions / captures per table"],
+    trusted=COMMON_TRUST,
+)
+
 PROPS["C19"] = dict(
     units=[("kani", "pcapcodec")],
     explanation="Global and record header codecs verified on all 24/16 header bytes: accepted magics, little-endian field layout, encode(decode(b)) == b; short buffers are errors.",
